@@ -10,7 +10,19 @@
    measurement reads.  A snapshot contains what get_resume_data + results['measurements'] contain:
    t, the records, and acc only if `c_restore` (before /repo commit b662f88 TimeEvolutionAlgorithm.
    get_resume_data did NOT contain trunc_err, i.e. c_restore = false; since that fix c_restore = true).
-   resume = re-enter the loop head as a first iteration with the snapshot's data. *)
+   resume = re-enter the loop head as a first iteration with the snapshot's data.
+
+   Options that interact with a resume and are part of the machine:
+   * c_minit = option `measure_initial` (init_measurements measures only if it is set; resume_run never
+     repeats the initial measurement);
+   * c_group = option `group_sites`.  Simulation.group_sites_for_algorithm runs in run() AND in resume_run():
+         if group_sites > 1:
+             if not self.loaded_from_checkpoint or self.psi.grouped < group_sites:  psi.group_sites(group_sites)
+             model.group_sites(group_sites)
+     The psi of a checkpoint IS the grouped psi of the engine (group_sites works in place on results['psi']),
+     the model is rebuilt ungrouped from its parameters.  s_g is the stack of grouping factors of psi
+     (MPS.group_sites(n) pushes n, psi.grouped = product; MPS.group_split pops the outermost factor);
+     Simulation.group_split (before the final measurement/save) splits iff group_sites > 1. *)
 From TenpyV Require Import Base.Prelude.
 
 Inductive pkind := TE | GS.
@@ -21,28 +33,44 @@ Record pcfg := mkCfg {
   c_T : nat;              (* TE: final time in units of dt;  GS: max_sweeps *)
   c_N : nat;              (* TE: N_steps;  GS: N_sweeps_check *)
   c_err : nat -> nat;     (* truncation error added by the engine run that ends at time t *)
-  c_restore : bool        (* is the accumulated error part of the resume data? *)
+  c_restore : bool;       (* is the accumulated error part of the resume data? *)
+  c_minit : bool;         (* option measure_initial *)
+  c_group : nat           (* option group_sites (1 = no grouping) *)
 }.
 
-Record pst := mkSt { s_pc : ppc; s_t : nat; s_acc : nat; s_recs : list (nat * nat) }.
+Record pst := mkSt { s_pc : ppc; s_t : nat; s_acc : nat; s_recs : list (nat * nat); s_g : list nat }.
 
-Definition p_init : pst := mkSt PInit 0 0 [].
+Definition p_init : pst := mkSt PInit 0 0 [] [].
+
+(* psi.grouped for a stack of grouping factors *)
+Definition prod_nat (l : list nat) : nat := fold_right Nat.mul 1 l.
+
+(* Simulation.group_sites_for_algorithm on the grouping stack of psi *)
+Definition g_enter (loaded : bool) (gs : nat) (st : list nat) : list nat :=
+  if 1 <? gs then (if negb loaded || (prod_nat st <? gs) then gs :: st else st) else st.
+
+(* does group_sites_for_algorithm group the model?  (always when group_sites > 1) *)
+Definition g_model (gs : nat) : bool := 1 <? gs.
+
+(* Simulation.group_split: psi.group_split() iff the option is > 1; MPS.group_split undoes the outermost
+   grouping (on a stack that is empty it would raise: not reachable after g_enter with the same gs) *)
+Definition g_split (gs : nat) (st : list nat) : list nat := if 1 <? gs then tl st else st.
 
 Definition p_step (c : pcfg) (s : pst) : pst :=
-  let '(mkSt pc t a r) := s in
+  let '(mkSt pc t a r g) := s in
   match c_kind c, pc with
-  | _, PInit => mkSt (PHead true) t a (r ++ [(t, a)])
-  | TE, PHead _ => if c_T c <=? t then mkSt PFinal t a r
-                   else mkSt PEvolved (t + c_N c) (a + c_err c (t + c_N c)) r
-  | TE, PEvolved => mkSt PMeasured t a (r ++ [(t, a)])
-  | TE, PMeasured => mkSt (PHead true) t a r              (* checkpoint: the save happens here *)
-  | TE, PFinal => mkSt PDone t a r                        (* final_measurements does nothing *)
-  | GS, PHead first => if c_T c <? t then mkSt PFinal t a r
-                       else if first then mkSt (PHead false) (t + c_N c) a r
-                       else mkSt PCkpt t a r
-  | GS, PCkpt => mkSt PSaved t a (r ++ [(t, a)])          (* measurement at the checkpoint *)
-  | GS, PSaved => mkSt (PHead false) (t + c_N c) a r      (* save happens here; then run_iteration *)
-  | GS, PFinal => mkSt PDone t a (r ++ [(t, a)])          (* final measurement *)
+  | _, PInit => mkSt (PHead true) t a (if c_minit c then r ++ [(t, a)] else r) (g_enter false (c_group c) g)
+  | TE, PHead _ => if c_T c <=? t then mkSt PFinal t a r g
+                   else mkSt PEvolved (t + c_N c) (a + c_err c (t + c_N c)) r g
+  | TE, PEvolved => mkSt PMeasured t a (r ++ [(t, a)]) g
+  | TE, PMeasured => mkSt (PHead true) t a r g            (* checkpoint: the save happens here *)
+  | TE, PFinal => mkSt PDone t a r (g_split (c_group c) g)   (* group_split; final_measurements does nothing *)
+  | GS, PHead first => if c_T c <? t then mkSt PFinal t a r g
+                       else if first then mkSt (PHead false) (t + c_N c) a r g
+                       else mkSt PCkpt t a r g
+  | GS, PCkpt => mkSt PSaved t a (r ++ [(t, a)]) g        (* measurement at the checkpoint *)
+  | GS, PSaved => mkSt (PHead false) (t + c_N c) a r g    (* save happens here; then run_iteration *)
+  | GS, PFinal => mkSt PDone t a (r ++ [(t, a)]) (g_split (c_group c) g)   (* group_split, final measurement *)
   | _, _ => s
   end.
 
@@ -57,9 +85,10 @@ Definition at_snapshot (c : pcfg) (s : pst) : bool :=
   | _, _ => false
   end.
 
-(* from_saved_checkpoint + resume_run: loop head, first iteration, data of the snapshot *)
+(* from_saved_checkpoint + resume_run: loop head, first iteration, data of the snapshot; psi of the snapshot
+   passes through group_sites_for_algorithm again, now with loaded_from_checkpoint = True *)
 Definition p_resume (c : pcfg) (s : pst) : pst :=
-  mkSt (PHead true) (s_t s) (if c_restore c then s_acc s else 0) (s_recs s).
+  mkSt (PHead true) (s_t s) (if c_restore c then s_acc s else 0) (s_recs s) (g_enter true (c_group c) (s_g s)).
 
 Definition is_done (s : pst) : bool := match s_pc s with PDone => true | _ => false end.
 
@@ -81,17 +110,35 @@ Fixpoint list_nat_eqb (a b : list nat) : bool :=
   | _, _ => false
   end.
 
-(* harness checker: (is_te, T, N, observed times of the plain run, interruptions), an interruption being
-   (index of the checkpoint after whose save the run was stopped, observed times of the resumed run's
-   final results) *)
-Definition check_proto (c : bool * nat * nat * list nat * list (nat * list nat)) : bool :=
-  let '(is_te, T, N, plain, ints) := c in
-  let cfg := mkCfg (if is_te then TE else GS) T N (fun _ => 1) false in
+Definition cdiv (a b : nat) : nat := (a + b - 1) / b.
+
+(* harness checker: (is_te, T, N, measure_initial, group_sites, observed times of the plain run, psi.grouped
+   of the plain run's final state, interruptions), an interruption being (index of the snapshot the loaded
+   checkpoint file holds, psi.grouped of the psi stored in that file, observed times of the resumed run's
+   final results, psi.grouped of its final state) *)
+Definition check_proto (c : bool * nat * nat * bool * nat * list nat * nat * list (nat * nat * list nat * nat)) : bool :=
+  let '(is_te, T, N, minit, gs, plain, plain_g, ints) := c in
+  let cfg := mkCfg (if is_te then TE else GS) T N (fun _ => 1) false minit gs in
   let fuel := 4 * (T + 4) + 8 in
   let full := p_iter cfg fuel p_init in
-  is_done full && list_nat_eqb (times full) plain &&
-  forallb (fun kc => match nth_snapshot cfg fuel (fst kc) p_init with
+  is_done full && list_nat_eqb (times full) plain && Nat.eqb (prod_nat (s_g full)) plain_g &&
+  forallb (fun kc => let '(k, ck_g, rtimes, r_g) := kc in
+                     match nth_snapshot cfg fuel k p_init with
                      | None => false
                      | Some s => let r := p_iter cfg fuel (p_resume cfg s) in
-                                 is_done r && list_nat_eqb (times r) (snd kc)
+                                 Nat.eqb (prod_nat (s_g s)) ck_g &&
+                                 is_done r && list_nat_eqb (times r) rtimes && Nat.eqb (prod_nat (s_g r)) r_g
                      end) ints.
+
+(* harness checker for one observed call of Simulation.group_sites_for_algorithm followed (optionally) by
+   Simulation.group_split:  (loaded_from_checkpoint, group_sites, grouping stack of psi before,
+   (L of psi, L of the model) before, (psi.grouped, L of psi, L of the model) after the call,
+   psi.grouped after group_split or None) *)
+Definition check_group (c : bool * nat * list nat * (nat * nat) * (nat * nat * nat) * option nat) : bool :=
+  let '(loaded, gs, st, (lpsi, lmod), (g1, lpsi1, lmod1), split) := c in
+  let st1 := g_enter loaded gs st in
+  let pushed := negb (Nat.eqb (length st1) (length st)) in
+  Nat.eqb g1 (prod_nat st1) &&
+  Nat.eqb lpsi1 (if pushed then cdiv lpsi gs else lpsi) &&
+  Nat.eqb lmod1 (if g_model gs then cdiv lmod gs else lmod) &&
+  match split with None => true | Some g2 => Nat.eqb g2 (prod_nat (g_split gs st1)) end.
